@@ -402,6 +402,8 @@ pub assume_specification<T: Clone + num::Integer> [Ratio::<T>::new] (n: T, d: T)
 /// (trait method: Verus allows no `requires` here; the result is only specified for a positive denominator)
 pub assume_specification<T: Clone + num::Integer> [<Ratio<T> as From<(T, T)>>::from] (p: (T, T)) -> (r: Ratio<T>)
     ensures int_of(p.1) > 0 ==> q_eq(ratio_num(r), ratio_den(r), int_of(p.0), int_of(p.1)) && ratio_den(r) > 0;
+/// (float arms of numerator / denominator: nothing is claimed about them)
+pub assume_specification [<Ratio<BigInt> as num::FromPrimitive>::from_f64] (x: f64) -> (r: Option<Ratio<BigInt>>);
 pub assume_specification<T> [Ratio::<T>::numer] (a: &Ratio<T>) -> (r: &T)
     ensures int_of(*r) == ratio_num(*a);
 pub assume_specification<T> [Ratio::<T>::denom] (a: &Ratio<T>) -> (r: &T)
@@ -778,6 +780,19 @@ UNITS = [{
                 (S, 'is_exact(r) ==> vden(r) > 0 && q_eq(vnum(r), vden(r), iabs(vnum(*self)), vden(*self))'),
                 (S, 'is_exact(*self) ==> is_exact(r) || (*self is Rational && vnum(*self) == i32::MIN && vden(*self) != 1)'),
             ],
+        },
+        # trusted (assumed from the body: every arm converts an integer value that fits; proving it needs a model of ToPrimitive per type)
+        'impl Number::to_u32': {
+            'props': ['C08', 'C06'], 'trusted': True,
+            'ensures': [(S, 'r matches Some(e) ==> (is_exact(*self) ==> is_int(*self) && vnum(*self) == e)')],
+        },
+        'impl Number::numerator': {
+            'props': ['C08', 'C06'],
+            'ensures': [(S, 'is_exact(*self) ==> is_int(r) && vnum(r) == vnum(*self)')],
+        },
+        'impl Number::denominator': {
+            'props': ['C08', 'C06'],
+            'ensures': [(S, 'is_exact(*self) ==> is_int(r) && vnum(r) == vden(*self)')],
         },
         'impl Number::floor': {
             'props': ['C08', 'C06'],
